@@ -411,4 +411,176 @@ theorem afterBlocks_nodeOrd {cfg : DocCfg} {src : List Char} {root : Block.BNode
       exact ⟨by rw [j2]; exact h1.1, j1⟩
     · cases h; exact h1
 
+/-! ## non-vacuity and witnesses -/
+
+mutual
+/-- a document tree in pre-order: (depth, start, end) of every node — block and inline level
+    (`(0, 0)` would stand for a missing range: none occurs below) -/
+def c05s_flat (d : Nat) : Node → List (Nat × Nat × Nat)
+  | ⟨_, r, _, cs⟩ => (d, (r.getD (0, 0)).1, (r.getD (0, 0)).2) :: c05s_flatList (d + 1) cs
+def c05s_flatList (d : Nat) : List Node → List (Nat × Nat × Nat)
+  | [] => []
+  | k :: ks => c05s_flat d k ++ c05s_flatList d ks
+end
+
+/-- the shape of the conclusion on a parsed document: root, paragraph, `Text "a "`, `Em` with its
+    `Text "b"` inside the delimiters, and ONE `Text " c*d"` at `(5, 9)` … -/
+example : (parseDoc (exCfg false 100) "a *b* c*d".toList).toOption.map (c05s_flat 0) =
+    some [(0, 0, 9), (1, 0, 9), (2, 0, 2), (2, 2, 5), (3, 3, 4), (2, 5, 9)] := by decide +kernel
+
+/-- … which the join pass made of three adjacent members `Text " c"` `(5, 7)`, the left-over
+    delimiter `EmphMarker` `(7, 8)` and `Text "d"` `(8, 9)` of the tree the splice walk returns: the
+    merged node takes the hull, the emptied ones are dropped -/
+example : (match Block.parseBlocks (exCfg false 100).blockCfg "a *b* c*d".toList with
+      | .ok (root, refs) => (spliceNode ((exCfg false 100).inlineCfg refs) root).toOption.map (c05s_flat 0)
+      | .error _ => none) =
+    some [(0, 0, 9), (1, 0, 9), (2, 0, 2), (2, 2, 5), (3, 3, 4), (2, 5, 7), (2, 7, 8), (2, 8, 9)] := by
+  decide +kernel
+
+/-- a tight list: the inline nodes hang directly under the items (their paragraphs are dissolved) -/
+example : (parseDoc (exCfg false 100) "- a\n- *b*".toList).toOption.map (c05s_flat 0) =
+    some [(0, 0, 9), (1, 0, 9), (2, 0, 3), (3, 2, 3), (2, 4, 9), (3, 6, 9), (4, 7, 8)] := by decide +kernel
+
+/-! ### the hypotheses of `afterBlocks_nodeOrd` are satisfiable -/
+
+/-- `Inline.OrderedN`, as a test -/
+def c05s_ordNb (hi : Nat) : Nat → List Inline.Node → Bool
+  | lo, [] => decide (lo ≤ hi)
+  | lo, n :: r =>
+    match n.range with
+    | some (a, b) => decide (lo ≤ a) && decide (a ≤ b) && c05s_ordNb hi b r
+    | none => false
+
+mutual
+/-- `Inline.WellRanged`, as a test -/
+def c05s_wrb : Inline.Node → Bool
+  | ⟨_, r, cs⟩ =>
+    (match r with
+     | some (a, b) => decide (a ≤ b) && c05s_ordNb b a cs
+     | none => false) && c05s_wrbList cs
+def c05s_wrbList : List Inline.Node → Bool
+  | [] => true
+  | c :: cs => c05s_wrb c && c05s_wrbList cs
+end
+
+theorem c05s_ordNb_sound {hi : Nat} : ∀ (l : List Inline.Node) (lo : Nat), c05s_ordNb hi lo l = true →
+    Inline.OrderedN lo hi l
+  | [], lo, h => by simp only [c05s_ordNb, decide_eq_true_eq] at h; exact h
+  | n :: r, lo, h => by
+    simp only [c05s_ordNb] at h
+    split at h
+    · rename_i a b hr
+      simp only [Bool.and_eq_true, decide_eq_true_eq] at h
+      exact ⟨a, b, hr, h.1.1, h.1.2, c05s_ordNb_sound r b h.2⟩
+    · cases h
+
+mutual
+theorem c05s_wrb_sound (n : Inline.Node) (h : c05s_wrb n = true) : Inline.WellRanged n := by
+  match n with
+  | ⟨v, r, cs⟩ =>
+    simp only [c05s_wrb, Bool.and_eq_true] at h
+    obtain ⟨h1, h2⟩ := h
+    simp only [Inline.WellRanged]
+    refine ⟨?_, c05s_wrbList_sound cs h2⟩
+    split at h1
+    · rename_i a b
+      simp only [Bool.and_eq_true, decide_eq_true_eq] at h1
+      exact ⟨a, b, rfl, h1.1, c05s_ordNb_sound cs a h1.2⟩
+    · cases h1
+theorem c05s_wrbList_sound (l : List Inline.Node) (h : c05s_wrbList l = true) : Inline.WellRangedList l := by
+  match l with
+  | [] => trivial
+  | c :: cs =>
+    simp only [c05s_wrbList, Bool.and_eq_true] at h
+    exact ⟨c05s_wrb_sound c h.1, c05s_wrbList_sound cs h.2⟩
+end
+
+/-- `PInl` for one placeholder, by evaluation -/
+theorem c05s_pinl_of_check {icfg : Inline.Cfg} {c : List Char} {m : List (Nat × Nat)} {a b : Nat}
+    (h : (match Inline.parseInline icfg c m with
+          | .ok ns => c05s_ordNb b a ns && c05s_wrbList ns
+          | .error _ => true) = true) : PInl icfg c m a b := by
+  intro ns hns
+  rw [hns] at h
+  simp only [Bool.and_eq_true] at h
+  exact ⟨c05s_ordNb_sound ns a h.1, c05s_wrbList_sound ns h.2⟩
+
+/-- the block tree of `"a *b* c*d"` -/
+def c05s_exSrc : List Char := "a *b* c*d".toList
+def c05s_exRoot : Block.BNode :=
+  ⟨.root, some (0, 9), [⟨.paragraph, some (0, 9), [⟨.inlineRoot c05s_exSrc [(0, 0)], none, []⟩]⟩]⟩
+
+mutual
+/-- a block tree in pre-order, with every field -/
+def c05s_flatB (d : Nat) : Block.BNode → List (Nat × Block.Kind × Option (Nat × Nat))
+  | ⟨k, r, cs⟩ => (d, k, r) :: c05s_flatBList (d + 1) cs
+def c05s_flatBList (d : Nat) : List Block.BNode → List (Nat × Block.Kind × Option (Nat × Nat))
+  | [] => []
+  | k :: ks => c05s_flatB d k ++ c05s_flatBList d ks
+end
+
+/-- … is what the block pass returns for it -/
+example : (Block.parseBlocks (exCfg false 100).blockCfg c05s_exSrc).toOption.map
+      (fun x => c05s_flatB 0 x.1) = some (c05s_flatB 0 c05s_exRoot) ∧
+    (Block.parseBlocks (exCfg false 100).blockCfg c05s_exSrc).toOption.map (fun x => x.2.isEmpty) =
+      some true := by decide +kernel
+
+theorem c05s_bd_zero (src : List Char) : Bd src 0 := ⟨[], src, rfl, rfl⟩
+theorem c05s_bd_len (src : List Char) : Bd src (Lines.byteLen src) := ⟨src, [], by simp, rfl⟩
+
+theorem c05s_exRoot_ranged : Block.RangedB (PInl ((exCfg false 100).inlineCfg [])) c05s_exSrc c05s_exRoot := by
+  have hp : PInl ((exCfg false 100).inlineCfg []) c05s_exSrc [(0, 0)] 0 9 :=
+    c05s_pinl_of_check (by decide +kernel)
+  have h9 : Bd c05s_exSrc 9 := c05s_bd_len c05s_exSrc
+  have hpar := Block.rangedB_text (P := PInl ((exCfg false 100).inlineCfg [])) (src := c05s_exSrc)
+    .paragraph (a := 0) (b := 9) (by omega) (c05s_bd_zero _) h9 hp (Nat.le_refl _) (by omega) (Nat.le_refl _)
+  refine .mk _ (fun a b h => ?_) (fun h => by cases h) ?_
+  · cases h
+    exact ⟨by omega, c05s_bd_zero _, h9, 0, 9, rfl, Nat.le_refl _, by omega, Nat.le_refl 9⟩
+  · intro c hc
+    simp only [c05s_exRoot, List.mem_singleton] at hc
+    subst hc
+    exact hpar
+
+theorem c05s_exRoot_noRange : InlNoRange c05s_exRoot := by
+  refine .mk _ (fun c m h => by cases h) ?_
+  intro c hc
+  simp only [c05s_exRoot, List.mem_singleton] at hc
+  subst hc
+  refine .mk _ (fun c m h => by cases h) ?_
+  intro c hc
+  simp only [List.mem_singleton] at hc
+  subst hc
+  exact .mk _ (fun _ _ _ => rfl) (by simp)
+
+/-- all hypotheses of `afterBlocks_nodeOrd` hold of the block tree of `"a *b* c*d"` (with the join
+    pass: the configuration has emphasis rules) -/
+example : ∃ t, afterBlocks (exCfg false 100) c05s_exSrc c05s_exRoot [] = .ok t ∧
+    t.range = some (0, 9) ∧ Every (NodeOrd c05s_exSrc) t := by
+  have h : (afterBlocks (exCfg false 100) c05s_exSrc c05s_exRoot []).toOption.isSome = true := by
+    decide +kernel
+  cases hp : afterBlocks (exCfg false 100) c05s_exSrc c05s_exRoot [] with
+  | error e => rw [hp] at h; cases h
+  | ok t => exact ⟨t, rfl, afterBlocks_nodeOrd rfl c05s_exRoot_ranged c05s_exRoot_noRange hp⟩
+
+/-- **`InlNoRange` is needed** (for an arbitrary tree; the trees of `parseBlocks` have it): a node with
+    a range whose VALUE is the placeholder satisfies `RangedB` for every claim `P` — nothing is
+    claimed about its text — and the splice walk replaces it all the same: here by a `Text` at
+    `(5, 7)`, outside the root `(0, 1)` and the one-byte source -/
+def c05s_badRoot : Block.BNode :=
+  ⟨.root, some (0, 1), [⟨.inlineRoot ['a', 'b'] [(0, 5)], some (0, 1), []⟩]⟩
+
+example : Block.RangedB (PInl ((exCfg false 100).inlineCfg [])) ['x'] c05s_badRoot := by
+  have h1 : Bd ['x'] 1 := c05s_bd_len ['x']
+  refine .mk _ (fun a b h => ?_) (fun h => by cases h) ?_
+  · cases h
+    exact ⟨by omega, c05s_bd_zero _, h1, 0, 1, rfl, Nat.le_refl _, by omega, Nat.le_refl 1⟩
+  · intro c hc
+    simp only [c05s_badRoot, List.mem_singleton] at hc
+    subst hc
+    exact Block.rangedB_leaf _ (by omega) (c05s_bd_zero _) h1
+
+example : (afterBlocks (exCfg false 100) ['x'] c05s_badRoot []).toOption.map (c05s_flat 0) =
+    some [(0, 0, 1), (1, 5, 7)] := by decide +kernel
+
 end MdIt.Pipeline
